@@ -24,6 +24,6 @@ META = dict(
 def tasks(tier):
     if tier == "quick":
         combos = [dict(policy=p, cons=["eq0"]) for p in loop.POLICIES] + [dict(policy=p, cons=[]) for p in ("Constant", "DualNorm", "ObjectiveFilter")]
-        return loop.loop_tasks(combos, 2)
+        return loop.loop_tasks(combos, 2) + loop.loop_tasks([dict(policy=p, cons=[]) for p in loop.POLICIES], 4)
     combos = [dict(policy=p, cons=c) for p in loop.POLICIES for c in (["eq0"], ["ge"])]
     return loop.loop_tasks(combos, 3) + loop.loop_tasks([dict(policy=p, cons=[]) for p in loop.POLICIES], 4)
